@@ -516,7 +516,7 @@ fn free_main(o: &Opts) -> i32 {
     let path = format!("{}/free_{}_{}.feox", o.get("dir").unwrap_or("/dev/shm"), std::process::id(), seed);
     crate::util::watchdog::start(o.num("watchdog", 60));
     obs::set_hang_lockout(o.get("lockout"));
-    let keynames: Vec<String> = (1..=nkeys).map(|i| format!("key{i}")).collect();
+    let keynames: Vec<String> = (1..=nkeys).map(|i| format!("key{i:04}")).collect();
     let big = pers && o.num("bigvals", 1u32) == 1;
     let pool: Vec<Value> = vec![
         json!({"k": "b", "id": 1, "len": if big { 3000 } else { 3 }, "n": 0}),
